@@ -11,7 +11,7 @@ from __future__ import annotations
 import copy
 import random
 
-from pv import corpus, gen, snap
+from pv import probes, corpus, gen, snap
 from pv.harness import Cov, digest, viol
 from pv.models.dryrun import dry_run
 
@@ -159,10 +159,103 @@ def put_in_state(game, meta, sclass, rnd):
             req("software_manager", "application", "uninstall", a)
         req("network_interface", 1, "disable")
         return f"{h} apps uninstalled, nic disabled"
+    if sclass == "recreated":
+        # names that were deleted / removed and then created again: the request tree must now address the NEW objects
+        fs = node.file_system
+        done = []
+        for fo in list(fs.folders.values()):
+            for f in list(fo.files.values())[:2]:
+                req("file_system", "delete", "file", fo.name, f.name)
+                req("file_system", "create", "file", fo.name, f.name, False)
+                done.append(f"{fo.name}/{f.name}")
+        req("file_system", "create", "folder", "again")
+        req("file_system", "create", "file", "again", "x.txt", False)
+        req("file_system", "delete", "folder", "again")
+        req("file_system", "create", "folder", "again")
+        req("file_system", "create", "file", "again", "x.txt", False)
+        for a in meta["hosts"][h]["apps"][:2]:
+            req("software_manager", "application", "uninstall", a)
+            req("software_manager", "application", "install", a)
+            done.append(a)
+        for t in range(1, 8):  # let installs complete
+            sim.apply_timestep(t)
+            sim.pre_timestep(t + 1)
+        return f"{h} recreated " + ",".join(done)
     raise ValueError(sclass)
 
 
-SCLASSES = ["pristine", "node-off", "node-shutting-down", "node-booting", "software", "fs", "uninstalled"]
+SCLASSES = ["pristine", "node-off", "node-shutting-down", "node-booting", "software", "fs", "uninstalled", "recreated"]
+
+
+# ------------------------------------------------------------------------------------------------ routing monitor
+_ROUTE = {"cur": None}  # the request being dispatched by ReqMonitor.submit and the live object its path names
+
+
+def addressed_object(sim, req):
+    """('file'|'folder'|'software', live object) named by a node-level request path, or None"""
+    if len(req) < 5 or req[0] != "network" or req[1] != "node":
+        return None
+    node = sim.network.get_node_by_hostname(req[2]) if isinstance(req[2], str) else None
+    if node is None:
+        return None
+    r = req[3:]
+    if r[0] in ("service", "application") and isinstance(r[1], str):
+        obj = node.software_manager.software.get(r[1])
+        return ("software", obj) if obj is not None else None
+    if r[0] == "file_system" and r[1] == "folder" and len(r) >= 4 and isinstance(r[2], str):
+        folder = node.file_system.get_folder(r[2])
+        if folder is None:
+            return None
+        if r[3] == "file" and len(r) >= 6 and isinstance(r[4], str):
+            f = folder.get_file(r[4])
+            return ("file", f) if f is not None else None
+        return ("folder", folder)
+    return None
+
+
+def install_routing_taps(cov, out):
+    """'routed to that component's own operation': while a request naming a live file / folder / service / application is
+    dispatched, every operation invoked on an object of that kind must be invoked on the named object itself"""
+    from primaite.simulator.file_system.file import File
+    from primaite.simulator.file_system.folder import Folder
+    from primaite.simulator.system.applications.application import Application
+    from primaite.simulator.system.services.service import Service
+    from primaite.simulator.system.software import Software
+
+    def mk(kind, base, verb):
+        def pre(obj, *a, **k):
+            cur = _ROUTE["cur"]
+            if not cur or cur["kind"] != kind or cur["depth"] != 0:
+                return None
+            cur["depth"] += 1
+            cov.inc("routed_operations_checked")
+            if obj is not cur["obj"] and cur["verb"] == verb:
+                if not any(o["mech"].startswith(f"request-handled-by-other-object/{kind}/") for o in out):
+                    out.append(viol(f"request-handled-by-other-object/{kind}/{verb}", f"{cur['request']} names the live {kind} {getattr(cur['obj'], 'name', '?')} (uuid "
+                                    f"{getattr(cur['obj'], 'uuid', '?')}) but {type(obj).__name__}.{verb} ran on a different object (uuid {getattr(obj, 'uuid', '?')}, "
+                                    f"deleted={getattr(obj, 'deleted', None)})", {"request": cur["request"]}))
+            return True
+
+        def post(obj, tok, res, exc, *a, **k):
+            if tok:
+                _ROUTE["cur"]["depth"] -= 1
+
+        if verb in base.__dict__ or hasattr(base, verb):
+            probes.wrap(base, verb, pre=pre, post=post, tapname=f"route:{base.__name__}.{verb}")
+
+    for v in ("scan", "check_hash", "repair", "corrupt", "restore", "reveal_to_red"):
+        mk("file", File, v)
+    for v in ("scan", "check_hash", "repair", "corrupt", "reveal_to_red"):
+        mk("folder", Folder, v)
+    for v in ("stop", "start", "pause", "resume", "restart", "disable", "enable"):
+        mk("software", Service, v)
+    for v in ("run", "close", "execute"):
+        mk("software", Application, v)
+    for v in ("scan", "fix"):
+        mk("software", Software, v)
+
+
+VERB_METHOD = {"checkhash": "check_hash"}  # request verb -> method name where they differ
 
 
 class ReqMonitor:
@@ -185,9 +278,13 @@ class ReqMonitor:
         need_snap = dr["refused"] or expect_refused
         before = snap.full(self.sim) if need_snap else None
         req_copy = copy.deepcopy(request)
+        ao = None if dr["refused"] else addressed_object(self.sim, request)
+        _ROUTE["cur"] = {"kind": ao[0], "obj": ao[1], "verb": VERB_METHOD.get(request[-1] if isinstance(request[-1], str) else "", request[-1]), "depth": 0,
+                         "request": request} if ao else None
         try:
             resp = self.sim.apply_request(req_copy)
         except Exception as e:
+            _ROUTE["cur"] = None
             if dr["why"] == "validator-raises" and "IndexError" in (dr["validator"] or ""):
                 # a validator was handed too few arguments: arity, not path (not judged)
                 self.cov.inc("diag_validator_short_arity")
@@ -195,6 +292,7 @@ class ReqMonitor:
             self.v(f"request-raises/{type(e).__name__}/{sig(path_only if path_only is not None else request)}", f"apply_request({request}) raised {type(e).__name__}: {str(e)[:200]} "
                    f"(dispatcher stops at: {dr['why']} depth {dr['depth']})", {"request": request, "kind": kind})
             return None, dr
+        _ROUTE["cur"] = None
         if not isinstance(resp, RequestResponse) or resp.status not in STATUSES:
             self.v(f"not-a-documented-status/{sig(path_only if path_only is not None else request)}", f"apply_request({request}) answered {resp!r}", {"request": request})
             return None, dr
@@ -375,7 +473,7 @@ def case_actions(spec, cov, out):
         game = corpus.build_game(cfg)
         pairs = action_component_pairs(game, meta, rnd)  # components named from the pristine live object graph
         desc = put_in_state(game, meta, sclass, rnd)
-        if sclass in ("fs", "uninstalled"):
+        if sclass in ("fs", "uninstalled", "recreated"):
             # these classes remove components: the clause is about EXISTING components, so re-read the live graph
             pairs = action_component_pairs(game, meta, rnd)
         mon = ReqMonitor(game, cov, out, {"gen_seed": spec["seed"], "family": meta["family"], "state": desc})
@@ -486,7 +584,7 @@ class Check:
         "state = describe_state() + ARP/MAC tables, sessions, connections, countdowns, users, file objects (pv.snap.full); sys_log output is not state",
         "action types are crossed only with components of the kind they are documented for; execute only with applications that define it",
     ]
-    min_monitor = {"requests": 5000, "refused_state_compares": 1500, "action_requests": 1000, "remote_requests_in_failure_states": 200}
+    min_monitor = {"requests": 5000, "refused_state_compares": 1500, "action_requests": 1000, "remote_requests_in_failure_states": 200, "routed_operations_checked": 300}
     case_timeout = {"quick": 1500, "thorough": 7200}
 
     def cases(self, tier, seed):
@@ -511,7 +609,15 @@ class Check:
 
     def run_case(self, spec):
         cov, out = Cov(), []
-        RUN[spec["kind"]](spec, cov, out)
+        import primaite.game.game  # noqa: F401
+
+        probes.uninstall_all()
+        install_routing_taps(cov, out)
+        try:
+            RUN[spec["kind"]](spec, cov, out)
+        finally:
+            probes.uninstall_all()
+            _ROUTE["cur"] = None
         d = cov.d
         reach = d.get("dispatch_outcome", {})
         handlers = sum(v for k, v in reach.items() if k.startswith("handler"))
